@@ -462,3 +462,7 @@ func verifIteI64(c bool, a, b int64) int64 {
 	}
 	return b
 }
+
+func verifUFv(name string, n int, bytes []byte, nums ...uint64) []byte {
+	panic("verifUFv is symbolic-only (contract stubs are not used natively)")
+}
